@@ -82,7 +82,7 @@ Handle(e) ==
     [] e.e = "call" -> HCall(e)
     [] e.e = "sk" -> HSk(e)
     [] e.e = "cbb" -> HCbb(e)
-    [] e.e = "crash" -> Stop
+    [] e.e = "crash" -> Rej("c12.crash." \o e.sum)     \* a sanitizer report or abnormal end inside a history of this family
     [] OTHER -> Skip
 
 Verdict == [verdict |-> IF bad /\ why.label # "" THEN "REJ" ELSE "ACC", id |-> hid, line |-> why.line, label |-> why.label]
